@@ -47,6 +47,12 @@
 //! signal-cb, translated in-process (generate mode); `(c17-cli …same…)` runs the real `qmluic generate-ui` binary with the classes
 //! in a `--foreign-types` file.  Expected, computed here from the class list by the same rule (unhidden declaration decides):
 //! accepted, "… resolution failed", or "unknown property / not found".  Answers `(ok …)` / `(violation …)`.
+//!
+//! ISOLATION.  Every table request (and every whole-pipeline request on a cyclic class family) is answered in a CHILD PROCESS
+//! (`qv-harness answer c17` with QV_C17_INPROC=1, one request, 5 s): a look-up that does not terminate is killed and answered
+//! `(fail "child-timeout" …)`, one that exhausts the stack (plain recursion over a cyclic graph aborts the process) is answered
+//! `(fail "child-crashed" (status "signal 6") …)` — a failing input instead of a harness that hangs or dies.  After 12 such answers
+//! in one run the remaining isolated cases are not started any more (`(fail "not-run" …)`): the run is red anyway, and it ends.
 use crate::rng::Rng;
 use crate::sexp::{atom, list, node, st, Sexp};
 use crate::{Case, Stream};
@@ -58,6 +64,79 @@ use std::sync::OnceLock;
 
 mod pipeline;
 use pipeline::{status_vectors, St};
+
+/// cases of this run that crashed or timed out in their child process
+static CHILD_FAILURES: std::sync::atomic::AtomicUsize = std::sync::atomic::AtomicUsize::new(0);
+const CHILD_FAILURE_LIMIT: usize = 12;
+const CHILD_TIMEOUT: std::time::Duration = std::time::Duration::from_secs(5);
+
+/// Answers `req` in a child process (see ISOLATION in the header).
+fn answer_in_child(req: &Sexp) -> Sexp {
+    use std::io::{Read as _, Write as _};
+    use std::sync::atomic::Ordering;
+    if CHILD_FAILURES.load(Ordering::Relaxed) >= CHILD_FAILURE_LIMIT {
+        return node("fail", vec![st("not-run"), st(format!("{CHILD_FAILURE_LIMIT} earlier cases of this run crashed or timed out in their child process"))]);
+    }
+    let exe = match std::env::current_exe() {
+        Ok(e) => e,
+        Err(e) => return node("fail", vec![st("child-spawn"), st(e.to_string())]),
+    };
+    let child = std::process::Command::new(exe)
+        .args(["answer", "c17"])
+        .env("QV_C17_INPROC", "1")
+        .env("QV_CASE_TIMEOUT", "60")
+        .stdin(std::process::Stdio::piped())
+        .stdout(std::process::Stdio::piped())
+        .stderr(std::process::Stdio::null())
+        .spawn();
+    let mut child = match child {
+        Ok(c) => c,
+        Err(e) => return node("fail", vec![st("child-spawn"), st(e.to_string())]),
+    };
+    {
+        let mut stdin = child.stdin.take().expect("piped stdin");
+        let _ = writeln!(stdin, "{}", req.render());
+    }
+    let mut stdout = child.stdout.take().expect("piped stdout");
+    let reader = std::thread::spawn(move || {
+        let mut out = String::new();
+        let _ = stdout.read_to_string(&mut out);
+        out
+    });
+    let start = std::time::Instant::now();
+    let status = loop {
+        match child.try_wait() {
+            Ok(Some(s)) => break Some(s),
+            Ok(None) if start.elapsed() > CHILD_TIMEOUT => {
+                let _ = child.kill();
+                let _ = child.wait();
+                break None;
+            }
+            Ok(None) => std::thread::sleep(std::time::Duration::from_millis(2)),
+            Err(_) => break None,
+        }
+    };
+    let out = reader.join().unwrap_or_default();
+    match status {
+        None => {
+            CHILD_FAILURES.fetch_add(1, Ordering::Relaxed);
+            node("fail", vec![st("child-timeout"), node("seconds", vec![atom(CHILD_TIMEOUT.as_secs().to_string())]), st("the look-ups of this request do not terminate")])
+        }
+        Some(s) => match out.lines().next().and_then(Sexp::parse) {
+            Some(a) if s.success() => a,
+            _ => {
+                use std::os::unix::process::ExitStatusExt as _;
+                CHILD_FAILURES.fetch_add(1, Ordering::Relaxed);
+                let how = match (s.signal(), s.code()) {
+                    (Some(sig), _) => format!("signal {sig}"),
+                    (_, Some(c)) => format!("exit {c}"),
+                    _ => "unknown".to_owned(),
+                };
+                node("fail", vec![st("child-crashed"), node("status", vec![st(how)]), st("the process answering this request died (signal 6 / 11: stack exhausted by unbounded recursion)")])
+            }
+        },
+    }
+}
 
 pub struct C17 {
     /// the Qt metatypes of /repo, parsed once (whole-pipeline cases only)
@@ -1181,12 +1260,17 @@ impl Stream for C17 {
         let Some((tag, args)) = req.as_node() else {
             return node("bad-request", vec![]);
         };
+        let isolated = std::env::var_os("QV_C17_INPROC").is_none();
         match tag {
             "c17-doc" => {
+                if isolated && pipeline::is_cyclic_request(args) {
+                    return answer_in_child(req);
+                }
                 let qt = self.qt.get_or_init(crate::env::load_qt_classes);
                 return pipeline::answer_doc(qt, args);
             }
             "c17-cli" => return pipeline::answer_cli(args),
+            "cg" | "spec-cg" | "f10-cg" if isolated => return answer_in_child(req),
             _ => {}
         }
         let spec = match tag {
